@@ -72,7 +72,11 @@ func (c *ClientContext) Clone() Context {
 // GetClientContext returns the *core.ClientContext bound to the context.
 func GetClientContext(ctx context.Context) *ClientContext {
 	if c, ok := FromContext(ctx); ok {
-		return c.(*ClientContext)
+		// the same context.Context may carry the context of the other side (a
+		// service method that calls another service with its own context)
+		if cc, ok := c.(*ClientContext); ok {
+			return cc
+		}
 	}
 	return nil
 }
